@@ -17,9 +17,9 @@ Section Ext.
 
   Lemma merge_all_spec_b : forall runs mem, Forall P (concat runs ++ mem) ->
     Forall (fun r => sortedb cmp r = true) runs ->
-    StronglySorted (fun a b => leb cmp a b = true) (merge_all cmp runs mem)
-    /\ Permutation (merge_all cmp runs mem) (concat runs ++ mem)
-    /\ (k_cross_ties cmp (runs ++ [mem]) = false -> merge_all cmp runs mem = isort cmp (concat runs ++ mem)).
+    StronglySorted (fun a b => leb cmp a b = true) (merge_all_pre cmp runs mem)
+    /\ Permutation (merge_all_pre cmp runs mem) (concat runs ++ mem)
+    /\ (k_cross_ties cmp (runs ++ [mem]) = false -> merge_all_pre cmp runs mem = isort cmp (concat runs ++ mem)).
   Proof.
     intros runs mem HP Hb.
     assert (HPr : Forall P (concat runs)) by (apply Forall_app in HP; tauto).
@@ -30,10 +30,10 @@ Section Ext.
   Qed.
 
   Lemma external_sort_spec_b : forall pieces mem, Forall P (concat pieces ++ mem) ->
-    StronglySorted (fun a b => leb cmp a b = true) (merge_all cmp (map (isort cmp) pieces) mem)
-    /\ Permutation (merge_all cmp (map (isort cmp) pieces) mem) (concat pieces ++ mem)
+    StronglySorted (fun a b => leb cmp a b = true) (merge_all_pre cmp (map (isort cmp) pieces) mem)
+    /\ Permutation (merge_all_pre cmp (map (isort cmp) pieces) mem) (concat pieces ++ mem)
     /\ (k_cross_ties cmp (map (isort cmp) pieces ++ [mem]) = false ->
-        merge_all cmp (map (isort cmp) pieces) mem = isort cmp (concat pieces ++ mem)).
+        merge_all_pre cmp (map (isort cmp) pieces) mem = isort cmp (concat pieces ++ mem)).
   Proof.
     intros pieces mem HP.
     destruct (external_sort_pieces cmp P leb_total leb_trans pieces mem HP) as [M1 [M2 M3]].
@@ -42,9 +42,9 @@ Section Ext.
   Qed.
 
   Lemma spill_sort_spec_b : forall threshold cs, Forall P (concat cs) ->
-    StronglySorted (fun a b => leb cmp a b = true) (spill_sort cmp threshold cs)
-    /\ Permutation (spill_sort cmp threshold cs) (concat cs)
-    /\ (k_cross_ties cmp (spill_runs cmp threshold cs) = false -> spill_sort cmp threshold cs = isort cmp (concat cs)).
+    StronglySorted (fun a b => leb cmp a b = true) (spill_sort_pre cmp threshold cs)
+    /\ Permutation (spill_sort_pre cmp threshold cs) (concat cs)
+    /\ (k_cross_ties cmp (spill_runs cmp threshold cs) = false -> spill_sort_pre cmp threshold cs = isort cmp (concat cs)).
   Proof.
     intros threshold cs HP.
     destruct (spill_sort_spec cmp P leb_total leb_trans threshold cs HP) as [M1 [M2 M3]].
@@ -55,8 +55,8 @@ End Ext.
 
 (** the witness of C17-K1 for the external sort: four one-row runs with equal keys *)
 Lemma external_sort_refuted_l : exists (threshold : nat) (cs : list (list (Z * Z))),
-  spill_sort zcmp1 threshold cs <> isort zcmp1 (concat cs)
-  /\ sortedb zcmp1 (spill_sort zcmp1 threshold cs) = true
+  spill_sort_pre zcmp1 threshold cs <> isort zcmp1 (concat cs)
+  /\ sortedb zcmp1 (spill_sort_pre zcmp1 threshold cs) = true
   /\ k_cross_ties zcmp1 (spill_runs zcmp1 threshold cs) = true.
 Proof.
   exists 1%nat, [[(1, 0)]; [(1, 1)]; [(1, 2)]; [(1, 3)]]%Z. split; [|split].
@@ -106,18 +106,18 @@ Proof.
 Qed.
 
 (** ** accumulators: merging in either order (worker completion order) *)
-Lemma accum_merge_comm_b : forall xs ys, uniformb (xs ++ ys) = true ->
+Lemma accum_merge_comm_b : forall xs ys, uniformb_kind (xs ++ ys) = true ->
   (forall v, In v (xs ++ ys) -> kind v <> 1%nat) ->
   let a := fold_add xs acc0 in let b := fold_add ys acc0 in
   a_count (merge a b) = a_count (merge b a) /\ a_sum (merge a b) = a_sum (merge b a)
   /\ a_min (merge a b) = a_min (merge b a) /\ a_max (merge a b) = a_max (merge b a).
 Proof.
   intros xs ys H Hnb. cbn zeta.
-  destruct (uniformb_kinded _ H) as [k Hk].
-  assert (Kx : kinded k xs) by (intros v Hv; apply Hk; apply in_or_app; auto).
-  assert (Ky : kinded k ys) by (intros v Hv; apply Hk; apply in_or_app; auto).
+  destruct (uniformb_kind_kinded _ H) as [k Hk].
+  assert (Kx : kindedk k xs) by (intros v Hv; apply Hk; apply in_or_app; auto).
+  assert (Ky : kindedk k ys) by (intros v Hv; apply Hk; apply in_or_app; auto).
   destruct (Nat.le_gt_cases 2 k) as [H2|H2].
-  - apply (accum_merge_comm_l k); auto; apply acc_ok_fold; auto; apply acc_ok_acc0.
+  - apply (accum_merge_comm_l k); auto; apply acc_okk_fold; auto; apply acc_okk_acc0.
   - (* k = 0 or 1: every value is NULL (Bool is excluded), both folds are acc0 *)
     assert (N : forall vs, (forall v, In v vs -> In v (xs ++ ys)) -> fold_add vs acc0 = acc0).
     { intros vs Hin. unfold fold_add.
